@@ -2,8 +2,9 @@
 f = lambda n, k, t=None: {"name": n, "kind": k, "target": t}
 SPEC = {"module": "models.ormmodel", "profile": "handwritten", "order": [], "classes": [
     {"name": "Vec", "parent": None, "fields": [f("uid", "int"), f("x", "float"), f("y", "float")]},
+    {"name": "Pin", "parent": None, "fields": [f("uid", "int"), f("host", "opt_ref", "Item")]},
     {"name": "Item", "parent": None, "fields": [f("uid", "int"), f("n", "int"), f("price", "opt_money"), f("holder", "opt_ref", "Holder"),
-                                                f("spot", "opt_ref", "Vec")]},
+                                                f("spot", "opt_ref", "Vec"), f("pin", "opt_ref", "Pin")]},
     {"name": "Holder", "parent": None, "fields": [f("uid", "int"), f("main", "ref", "Item"), f("items", "list_ref", "Item"),
                                                   f("spare", "list_ref", "Item"), f("vecs", "list_ref", "Vec"),
                                                   f("kind", "type", "Base0"), f("color", "enum")]},
@@ -15,3 +16,5 @@ SPEC = {"module": "models.ormmodel", "profile": "handwritten", "order": [], "cla
     {"name": "Circle", "parent": "ShapeBase", "fields": [f("r", "float"), f("center", "opt_ref", "Vec")]},
 ]}
 SPEC["order"] = [c["name"] for c in SPEC["classes"]]
+# references to an alternatively mapped class that takes part in reference cycles (listed finding of C04/C05)
+SPEC["alt_cycle_fields"] = ["pin"]
